@@ -322,6 +322,13 @@ func (g *Group) Search(prefix string, cmp SearchFunc) (*GroupReader, bool, error
 		}
 		foundIndex, line, err := scanNext(r, prefix)
 		r.Close()
+		if err == io.EOF {
+			// No line with this prefix from file curIndex to the end of the group
+			// (the head was rotated after the last marker was written): what we
+			// are looking for can only be in an earlier file.
+			maxIndex = curIndex - 1
+			continue
+		}
 		if err != nil {
 			return nil, false, err
 		}
